@@ -16,7 +16,8 @@ import (
 var c06Names = []string{"a", "f1", "f2", "f3"}
 
 // c06Bad: valid import lines followed by text the grammar rejects
-var c06Bad = []string{"App%d:\n    !type\n", "App%d:\n    e:\n        <- <-\n"}
+// or that stops in the middle of a declaration (a truncated file)
+var c06Bad = []string{"App%d:\n    !type\n", "App%d:\n    e:\n        <- <-\n", "App%d:\n    ...\n\nOther%d:\n", "App%d:\n    ...\n\nOther%d", "App%d:\n    e:\n"}
 
 //verif:shard-quick 16 3
 //verif:shard-thorough 16 4
@@ -67,6 +68,9 @@ func Harness_C06_BadFileInClosure() {
 	walk(0)
 	mod, err, crashed, msg := feCompile(files, "a.sysl")
 	nd.Note(msg)
+	if err != nil {
+		nd.Note("err: " + err.Error())
+	}
 	nd.Assert("closure:no-crash-no-hang", !crashed)
 	if crashed {
 		return
